@@ -48,10 +48,13 @@ func (c *ConfigReceiver) Derive(adjust curve.Scalar, newChainKey []byte) (*Confi
 
 	adjustG := adjust.ActOnBase()
 
+	// The secret key is the sum of the two shares, so exactly one side must add the adjustment
+	// to its share: the sender does, the receiver keeps its share.
 	return &ConfigReceiver{
 		Setup:       c.Setup,
-		SecretShare: c.SecretShare.Curve().NewScalar().Set(c.SecretShare).Add(adjust),
+		SecretShare: c.SecretShare.Curve().NewScalar().Set(c.SecretShare),
 		Public:      c.Public.Add(adjustG),
+		ChainKey:    newChainKey,
 	}, nil
 }
 
@@ -159,10 +162,13 @@ func (c *ConfigSender) Derive(adjust curve.Scalar, newChainKey []byte) (*ConfigS
 
 	adjustG := adjust.ActOnBase()
 
+	// The secret key is the sum of the two shares, so exactly one side must add the adjustment
+	// to its share: the sender does, the receiver keeps its share.
 	return &ConfigSender{
 		Setup:       c.Setup,
 		SecretShare: c.SecretShare.Curve().NewScalar().Set(c.SecretShare).Add(adjust),
 		Public:      c.Public.Add(adjustG),
+		ChainKey:    newChainKey,
 	}, nil
 }
 
